@@ -37,7 +37,7 @@ from vlib import BIN, HARNESS, ToolError, FileLock, log, mkscratch, rmtree, run_
 #            char: (is \d, is \w, is \s)
 POOL = {
     "a": (0, 1, 0), "b": (0, 1, 0), "c": (0, 1, 0), "x": (0, 1, 0), "0": (1, 1, 0), "7": (1, 1, 0), "_": (0, 1, 0),
-    " ": (0, 0, 1), "\n": (0, 0, 1), "\t": (0, 0, 1), "\u00a0": (0, 0, 1), "\u2003": (0, 0, 1),
+    " ": (0, 0, 1), "\n": (0, 0, 1), "\t": (0, 0, 1), "\r": (0, 0, 1), "\u00a0": (0, 0, 1), "\u2003": (0, 0, 1),
     ".": (0, 0, 0), "*": (0, 0, 0), "+": (0, 0, 0), "?": (0, 0, 0), "(": (0, 0, 0), ")": (0, 0, 0),
     "[": (0, 0, 0), "]": (0, 0, 0), "{": (0, 0, 0), "}": (0, 0, 0), "|": (0, 0, 0), "^": (0, 0, 0),
     "$": (0, 0, 0), "\\": (0, 0, 0), '"': (0, 0, 0), "#": (0, 0, 0), "-": (0, 0, 0), "/": (0, 0, 0),
@@ -97,6 +97,7 @@ ALPHABETS = {
     "uni": ([S("a"), S("\u00e9"), S("\u20ac"), S("\U0001f600"), S(" ")], False),
     "uni2": ([S("\u00e9"), S("\u00df"), S("\u4e2d"), S("\U0001d400"), S("\u2003")], False),
     "meta1": ([S("."), S("*"), S("\\"), S('"'), S("\n"), S("a")], "dot"),
+    "dotcr": ([S("a"), S("\r"), S("\n"), S("#"), S("'")], "dot"),   # `.` matches \r but not \n
     "meta2": ([S("("), S("|"), S("#"), S("["), S("-"), S("a")], False),
     "meta3": ([S("+"), S("?"), S("]"), S("^"), S("$"), S("{")], False),
     "meta4": ([S(")"), S("}"), S("&"), S("~"), S("'"), S("/")], False),
@@ -295,7 +296,7 @@ def lit_string(alpha, r):
 
 def quote_lit(s):
     """a LALRPOP quoted terminal: escapes \\\\ \\" \\n \\t, everything else raw"""
-    return '"' + s.replace("\\", "\\\\").replace('"', '\\"').replace("\n", "\\n").replace("\t", "\\t") + '"'
+    return '"' + s.replace("\\", "\\\\").replace('"', '\\"').replace("\n", "\\n").replace("\t", "\\t").replace("\r", "\\r") + '"'
 
 
 def quote_regex(src):
@@ -748,7 +749,7 @@ def table_cases(gen, count, N_small, N_big):
     """C10: every terminal in its own rung (never ambiguous), diverse syntax, metacharacter / non-ASCII alphabets"""
     out = []
     names = ["meta1", "named", "meta2", "named2", "meta3", "uni", "meta4", "named", "meta5", "uni2", "named2", "exactuni",
-             "exact", "ascii"]
+             "exact", "ascii", "dotcr"]
     for i in range(count):
         aname = names[i % len(names)]
         K = len(ALPHABETS[aname][0])
@@ -765,7 +766,7 @@ def population(tier, seed):
     N5 = 4 if quick else 5      # alphabets with <= 5 classes
     N6 = 3 if quick else 4      # alphabets with 6 classes
     cases = fixed_cases(N5)
-    lex_names = ["ascii", "uni", "ascii", "exact", "uni", "named", "meta1", "exactuni", "uni2"]
+    lex_names = ["ascii", "uni", "ascii", "exact", "uni", "named", "meta1", "exactuni", "uni2", "dotcr"]
     n_lex = 44 if quick else 300
     for i in range(n_lex):
         aname = lex_names[i % len(lex_names)]
